@@ -328,6 +328,9 @@ def create_for_folder_subcommand(
                     existing_history.get_relative_file_path(not_found_path)
                 )
                 not_found_path_hash = not_found_path_history.find_first_hash_entry_for_path(relative_not_found_path)
+                # a folder recorded without directory hashes (-n) has nothing that could identify it under a new name
+                if not_found_path_hash is None:
+                    continue
 
                 new_path_history, new_path_media_hash = None, None
                 for history, hash_list in session.new_hash_lists.items():
